@@ -1,4 +1,77 @@
-/- driver stub (Schema): replaced by the owner of this model group -/
+/- driver for C18 (schema detection, job diffs).
+   `schema <0|1> <n> (S<hex id> <state point value>)*n`
+        jobs in the iteration order of the index; answer
+        `<hex key>><type>=<v>,<v>;<type>=...|<hex key>>...`  keys, types and values sorted
+   `diff <n> (S<hex id> <state point value>)*n`
+        jobs in argument order; answer `<hex id>><wire of the key-sorted diff>|...`
+   `flat <state point value>`  -> `<hex dotted key>=<v>|...` in yield order
+   `unflat <state point value>` -> wire of `unflatten (flatten sp)` (entry order as produced) -/
+import Signac.Json
+import Signac.PyVal
 import Signac.Wire
-open Signac
-def main : IO Unit := driverLoop (fun _ => "bad-op")
+import Signac.Schema
+open Signac Signac.Schema
+
+def insertSorted (s : String) : List String → List String
+  | [] => [s]
+  | t :: ts => if s < t then s :: t :: ts else t :: insertSorted s ts
+
+def sortStrings (l : List String) : List String := l.foldl (fun acc s => insertSorted s acc) []
+
+def parseJobs : Nat → List String → Option (List Job × List String)
+  | 0, ts => some ([], ts)
+  | n + 1, t :: ts =>
+    match t.toList with
+    | 'S' :: hx =>
+      match unhex (String.ofList hx) with
+      | some id =>
+        match parseValue ts with
+        | some (.obj kvs, rest) =>
+          match parseJobs n rest with
+          | some (js, rest') => some ({ id := id, sp := kvs } :: js, rest')
+          | none => none
+        | _ => none
+      | none => none
+    | _ => none
+  | _ + 1, [] => none
+
+def renderVal (v : JVal) : String := wire (canon v)
+
+def renderTypes (tvs : List (String × List JVal)) : String :=
+  ";".intercalate (sortStrings (tvs.map (fun tv =>
+    tv.1 ++ "=" ++ ",".intercalate (sortStrings (tv.2.map renderVal)))))
+
+def renderSchema (s : List (String × List (String × List JVal))) : String :=
+  "|".intercalate (sortStrings (s.map (fun kv => toHex kv.1 ++ ">" ++ renderTypes kv.2)))
+
+def renderDiff (d : List (String × KVs)) : String :=
+  "|".intercalate (d.map (fun kv => toHex kv.1 ++ ">" ++ renderVal (.obj kv.2)))
+
+def stepSchema (line : String) : String :=
+  match tokens line with
+  | "schema" :: ex :: n :: ts =>
+    match (if ex = "0" then some false else if ex = "1" then some true else none), n.toNat? with
+    | some excl, some n =>
+      match parseJobs n ts with
+      | some (jobs, []) => renderSchema (detectSchema excl jobs)
+      | _ => "bad-value"
+    | _, _ => "bad-value"
+  | "diff" :: n :: ts =>
+    match n.toNat? with
+    | some n =>
+      match parseJobs n ts with
+      | some (jobs, []) => renderDiff (diffJobs jobs)
+      | _ => "bad-value"
+    | none => "bad-value"
+  | "flat" :: ts =>
+    match parseValue ts with
+    | some (.obj kvs, []) =>
+      "|".intercalate ((flatten kvs).map (fun kv => toHex kv.1 ++ "=" ++ wire kv.2))
+    | _ => "bad-value"
+  | "unflat" :: ts =>
+    match parseValue ts with
+    | some (.obj kvs, []) => wire (.obj (unflatten (flatten kvs)))
+    | _ => "bad-value"
+  | _ => "bad-op"
+
+def main : IO Unit := driverLoop stepSchema
